@@ -989,9 +989,46 @@ func MakeForeign(r *rng.R, opts ForeignOpts) *Foreign {
 			f.Parts[name] = []byte(x)
 		}
 	}
-	f.put("word/_rels/document.xml.rels", hdr+docRelsXML)
-	f.put("_rels/.rels", hdr+pkgRelsXML)
-	f.put("[Content_Types].xml", hdr+ctXML)
+	// the package's own vocabularies stored as UTF-16 with byte order mark (the other encoding OPC allows; what a producer
+	// gets that serialises every part through a generic XML writer set to UTF-16)
+	enc := func(x string) string { return x }
+	if !opts.Simple && r.Chance(1, 12) {
+		which := r.Intn(3)
+		le := r.Bool()
+		to16 := func(x string) string {
+			x = strings.Replace(x, `encoding="UTF-8"`, `encoding="UTF-16"`, 1)
+			b := []byte{0xfe, 0xff}
+			if le {
+				b = []byte{0xff, 0xfe}
+			}
+			for _, u := range utf16.Encode([]rune(x)) {
+				if le {
+					b = append(b, byte(u), byte(u>>8))
+				} else {
+					b = append(b, byte(u>>8), byte(u))
+				}
+			}
+			return string(b)
+		}
+		w.feature([]string{"utf-16:main-part-relationships", "utf-16:package-relationships", "utf-16:content-types"}[which])
+		switch which {
+		case 0:
+			docRelsXML = to16(hdr + docRelsXML)
+		case 1:
+			pkgRelsXML = to16(hdr + pkgRelsXML)
+		default:
+			ctXML = to16(hdr + ctXML)
+		}
+		enc = func(x string) string {
+			if strings.HasPrefix(x, hdr+"\xfe\xff") || strings.HasPrefix(x, hdr+"\xff\xfe") {
+				return strings.TrimPrefix(x, hdr)
+			}
+			return x
+		}
+	}
+	f.put("word/_rels/document.xml.rels", enc(hdr+docRelsXML))
+	f.put("_rels/.rels", enc(hdr+pkgRelsXML))
+	f.put("[Content_Types].xml", enc(hdr+ctXML))
 	// a realistic order: content types first
 	order := []string{"[Content_Types].xml", "_rels/.rels"}
 	for _, n := range f.Order {
